@@ -673,3 +673,8 @@ mod tests {
         assert_close(&x_rec, &x, 1e-12);
     }
 }
+
+#[cfg(nuts_rs_verif)]
+pub use diagonal::DiagMassMatrix as VerifDiagMassMatrix;
+#[cfg(nuts_rs_verif)]
+pub use low_rank::LowRankMassMatrix as VerifLowRankMassMatrix;
